@@ -1210,6 +1210,12 @@ func (x *Exec) assign(l ast.Expr, v Term, env *Env) {
 				x.assign(l.X, x.fresh("st", info.TypeOf(l.X)), env)
 				return
 			}
+			if _, isPtr := info.TypeOf(l.X).Underlying().(*types.Pointer); isPtr && !x.termMode && nv.Sort == cur.Sort {
+				// a store through a pointer does not change whether the pointer is nil (it was not: the store succeeded)
+				pn := "isnilptr_" + sanitize(string(cur.Sort))
+				x.W.DeclareFun(pn, []Sort{cur.Sort}, SBool)
+				x.W.AddFact(env.pc, Not(T("("+pn+" "+nv.S+")", SBool)))
+			}
 			x.assign(l.X, nv, env)
 			return
 		}
